@@ -625,11 +625,10 @@ class Beam(_Simu):
             values = Sigma_e[:, index]
 
         elif result in ["ux'", "rx'", "ry'", "rz'"]:
-            coef = 1 if result == "Exx" else 1 / 2
-
             Epsilon_e = self._Calc_Epsilon_e_pg(self.displacement).mean(1)
-            index = self._indexResult(result)
-            values = Epsilon_e[:, index] * coef
+            # same ordering as the internal forces: [ux'], [ux', rz'] or [ux', rx', ry', rz']
+            index = self._indexResult({"ux'": "N", "rx'": "Mx", "ry'": "My", "rz'": "Mz"}[result])
+            values = Epsilon_e[:, index]
 
         else:
             Terminal.MyPrintError(f"The result '{result}' is not implemented yet.")
